@@ -158,6 +158,82 @@ class Intercept:
 
 
 # --------------------------------------------------------------------------
+# state leak oracle: defaults of functions / methods, class attributes, module level
+# containers and the attributes of shared (module level / registered) joserfc objects
+# --------------------------------------------------------------------------
+def freeze(v, depth=0):
+    if isinstance(v, (str, int, float, bytes, bool, type(None))):
+        return v
+    if depth > 5:
+        return ("id", id(v))
+    if isinstance(v, dict):
+        return ("dict", tuple(sorted((repr(k), freeze(x, depth + 1)) for k, x in v.items())))
+    if isinstance(v, (list, tuple)):
+        return (type(v).__name__, tuple(freeze(x, depth + 1) for x in v))
+    if isinstance(v, (set, frozenset)):
+        return (type(v).__name__, tuple(sorted(repr(freeze(x, depth + 1)) for x in v)))
+    return ("id", id(v))
+
+
+class StateWatch:
+    MODULES = ["joserfc.jwe", "joserfc.rfc7516.models", "joserfc.rfc7516.message", "joserfc.rfc7516.registry",
+               "joserfc.rfc7516.compact", "joserfc.rfc7516.json", "joserfc.rfc7518.jwe_algs", "joserfc.rfc7518.jwe_encs",
+               "joserfc.rfc7518.jwe_zips", "joserfc.rfc7518.derive_key", "joserfc.drafts.jwe_ecdh_1pu",
+               "joserfc.drafts.jwe_chacha20", "joserfc.rfc7518.oct_key", "joserfc.rfc7518.ec_key", "joserfc.rfc7518.rsa_key",
+               "joserfc.rfc8037.okp_key", "joserfc.rfc7517.models", "joserfc.registry"]
+
+    def __init__(self):
+        import importlib, types
+        self.targets = []          # (name, getter)
+        seen = set()
+
+        def add_func(name, f):
+            f = getattr(f, "__func__", f)
+            f = getattr(f, "fget", f) or f
+            if isinstance(f, types.FunctionType) and id(f) not in seen:
+                seen.add(id(f))
+                self.targets.append((name + ".__defaults__", lambda f=f: freeze(f.__defaults__)))
+                self.targets.append((name + ".__kwdefaults__", lambda f=f: freeze(f.__kwdefaults__)))
+
+        for mn in self.MODULES:
+            try:
+                mod = importlib.import_module(mn)
+            except Exception:
+                continue
+            for gn, gv in list(vars(mod).items()):
+                if gn.startswith("__"):
+                    continue
+                full = "%s.%s" % (mn, gn)
+                if isinstance(gv, types.FunctionType):
+                    if gv.__module__ == mn:
+                        add_func(full, gv)
+                elif isinstance(gv, type):
+                    if gv.__module__ == mn and id(gv) not in seen:
+                        seen.add(id(gv))
+                        self.targets.append(("vars(%s)" % full, lambda c=gv: freeze({k: v for k, v in vars(c).items()
+                                                                                      if k not in ("__dict__", "__weakref__")})))
+                        for an, av in list(vars(gv).items()):
+                            add_func("%s.%s" % (full, an), av)
+                elif isinstance(gv, (dict, list, set)):
+                    self.targets.append((full, lambda v=gv: freeze(v)))
+                elif type(gv).__module__.startswith("joserfc") and hasattr(gv, "__dict__") and id(gv) not in seen:
+                    seen.add(id(gv))
+                    self.targets.append(("vars(%s)" % full, lambda o=gv: freeze(vars(o))))
+        from joserfc.rfc7516.registry import JWERegistry
+        for loc, d in JWERegistry.algorithms.items():
+            for n, inst in d.items():
+                if id(inst) not in seen:
+                    seen.add(id(inst))
+                    self.targets.append(("vars(JWERegistry.algorithms[%s][%s])" % (loc, n), lambda o=inst: freeze(vars(o))))
+
+    def snap(self):
+        return [g() for _, g in self.targets]
+
+    def changed(self, a, b):
+        return [self.targets[i][0] for i in range(len(a)) if a[i] != b[i]]
+
+
+# --------------------------------------------------------------------------
 # configurations
 # --------------------------------------------------------------------------
 class Keys:
@@ -226,11 +302,16 @@ def epk_vk(d):
 
 
 class Rcp:
-    """one recipient of a configuration"""
+    """one recipient of a configuration.
+    alg_at: where "alg" (and a supplied p2s/p2c) is put: "protected" | "unprotected" | "recipient";
+    hdr: how the recipient header argument is passed: "omit" (argument not given at all),
+         "none", "empty" ({}), "dict" (a fresh dict)."""
 
-    def __init__(self, alg, key, p2s=None, p2c=None, preset=None, sender=None, alg_in_protected=False):
+    def __init__(self, alg, key, p2s=None, p2c=None, preset=None, sender=None, alg_at="recipient", hdr="dict"):
         self.alg, self.key, self.p2s, self.p2c, self.preset, self.sender = alg, key, p2s, p2c, preset, sender
-        self.alg_in_protected = alg_in_protected
+        self.alg_at, self.hdr = alg_at, hdr
+        if alg_at == "recipient":
+            self.hdr = "dict"
 
     def coq(self):
         return ('{| r_alg := "%s"; r_key := %s; r_has_p2s := %s; r_p2c := %s; r_preset_epk := %s; r_sender := %s |}'
@@ -240,33 +321,45 @@ class Rcp:
     def js(self):
         return {"alg": self.alg, "key": list(self.key), "p2s": self.p2s.hex() if self.p2s else None, "p2c": self.p2c,
                 "preset": list(self.preset) if self.preset else None, "sender": list(self.sender) if self.sender else None,
-                "alg_in_protected": self.alg_in_protected}
+                "alg_at": self.alg_at, "hdr": self.hdr}
 
     @staticmethod
     def from_js(j):
         t = lambda x: tuple(x) if x else None
+        alg_at = j.get("alg_at") or ("protected" if j.get("alg_in_protected") else "recipient")
         return Rcp(j["alg"], tuple(j["key"]), bytes.fromhex(j["p2s"]) if j["p2s"] else None, j["p2c"],
-                   t(j["preset"]), t(j["sender"]), j.get("alg_in_protected", False))
+                   t(j["preset"]), t(j["sender"]), alg_at, j.get("hdr", "none" if alg_at != "recipient" else "dict"))
 
 
 class Config:
-    def __init__(self, enc, ser, rcps, aad=None, zip_=False):
-        self.enc, self.ser, self.rcps, self.aad, self.zip = enc, ser, rcps, aad, zip_
+    """ser: "compact" (jwe.encrypt_compact) | "compact_obj" (CompactEncryption + attach_recipient +
+    perform_encrypt) | "flat" | "general";  keys_via: "recipient" (key given to add_recipient) |
+    "encrypt_json" (key given to jwe.encrypt_json)."""
+
+    def __init__(self, enc, ser, rcps, aad=None, zip_=False, keys_via="recipient"):
+        self.enc, self.ser, self.rcps, self.aad, self.zip, self.keys_via = enc, ser, rcps, aad, zip_, keys_via
+        if len({r.key for r in rcps}) != 1 or ser in ("compact", "compact_obj"):
+            self.keys_via = "recipient"       # one key for all recipients is needed to hand it to encrypt_json
+
+    @property
+    def is_compact(self):
+        return self.ser in ("compact", "compact_obj")
 
     def coq_msg(self):
         return '{| m_enc := "%s"; m_recips := %s |}' % (self.enc, c_list(r.coq() for r in self.rcps))
 
     def js(self):
         return {"enc": self.enc, "ser": self.ser, "rcps": [r.js() for r in self.rcps],
-                "aad": self.aad.hex() if self.aad else None, "zip": self.zip}
+                "aad": self.aad.hex() if self.aad else None, "zip": self.zip, "keys_via": self.keys_via}
 
     @staticmethod
     def from_js(j):
         return Config(j["enc"], j["ser"], [Rcp.from_js(r) for r in j["rcps"]],
-                      bytes.fromhex(j["aad"]) if j.get("aad") else None, j.get("zip", False))
+                      bytes.fromhex(j["aad"]) if j.get("aad") else None, j.get("zip", False), j.get("keys_via", "recipient"))
 
     def label(self):
-        return "%s/%s/%s" % ("+".join(r.alg for r in self.rcps) or "-", self.enc, self.ser)
+        shape = ",".join("%s:%s" % (r.alg_at[:4], r.hdr) for r in self.rcps)
+        return "%s/%s/%s[%s;%s]" % ("+".join(r.alg for r in self.rcps) or "-", self.enc, self.ser, shape, self.keys_via[:4])
 
 
 class Runner:
@@ -282,40 +375,81 @@ class Runner:
         return h
 
     def encrypt(self, cfg):
-        """-> ("ok", token-ish) | ("err", exc).  A FRESH header dict per call."""
+        """-> ("ok", token-ish) | ("err", exc).  FRESH message and header objects per call;
+        the header argument is really omitted when r.hdr == "omit"."""
         from joserfc import jwe
-        from joserfc.rfc7516.models import GeneralJSONEncryption, FlattenedJSONEncryption
+        from joserfc.rfc7516.models import GeneralJSONEncryption, FlattenedJSONEncryption, CompactEncryption
         pt = b"C18 payload"
         try:
-            if cfg.ser == "compact":
+            if cfg.is_compact:
                 r = cfg.rcps[0]
                 protected = {"alg": r.alg, "enc": cfg.enc}
-                protected.update(self.headers_for(r))
+                extra = self.headers_for(r)
                 if cfg.zip:
                     protected["zip"] = "DEF"
-                tok = jwe.encrypt_compact(protected, pt, self.keys.get(r.key), registry=self.reg,
-                                          sender_key=self.keys.get(r.sender))
-                return ("ok", tok)
+                if cfg.ser == "compact":
+                    protected.update(extra)
+                    tok = jwe.encrypt_compact(protected, pt, self.keys.get(r.key), registry=self.reg,
+                                              sender_key=self.keys.get(r.sender))
+                    return ("ok", tok)
+                from joserfc.rfc7516.message import perform_encrypt
+                from joserfc.rfc7516.compact import represent_compact
+                key = self.keys.get(r.key)
+                if r.hdr != "dict":
+                    protected.update(extra)
+                obj = CompactEncryption(protected, pt)
+                if r.hdr == "omit":
+                    obj.attach_recipient(key)
+                elif r.hdr == "none":
+                    obj.attach_recipient(key, None)
+                elif r.hdr == "empty":
+                    obj.attach_recipient(key, {})
+                else:
+                    obj.attach_recipient(key, dict(extra) if extra else {"kid": "c18"})
+                if r.sender is not None:
+                    obj.recipient.sender_key = self.keys.get(r.sender)
+                perform_encrypt(obj, self.reg)
+                return ("ok", represent_compact(obj).decode("ascii"))
             protected = {"enc": cfg.enc}
+            unprotected = None
             if cfg.zip:
                 protected["zip"] = "DEF"
-            cls = FlattenedJSONEncryption if cfg.ser == "flat" else GeneralJSONEncryption
-            obj = cls(protected, pt, None, cfg.aad)
             for r in cfg.rcps:
-                h = self.headers_for(r)
-                if r.alg_in_protected:
-                    protected["alg"] = r.alg
-                    protected.update(h)
-                    h = {}
+                if r.alg_at == "unprotected" and unprotected is None:
+                    unprotected = {}
+            cls = FlattenedJSONEncryption if cfg.ser == "flat" else GeneralJSONEncryption
+            obj = cls(protected, pt, unprotected, cfg.aad)
+            via_json = cfg.keys_via == "encrypt_json" and len(cfg.rcps) >= 1
+            for r in cfg.rcps:
+                extra = self.headers_for(r)
+                key = None if via_json else self.keys.get(r.key)
+                shared = protected if r.alg_at == "protected" else unprotected
+                if r.alg_at == "recipient":
+                    h = {"alg": r.alg}
+                    h.update(extra)
+                    obj.add_recipient(h, key)
+                    continue
+                shared["alg"] = r.alg
+                if r.hdr == "dict":
+                    h = dict(extra) if extra else {"kid": "c18"}
+                    obj.add_recipient(h, key)
+                    continue
+                shared.update(extra)
+                if r.hdr == "omit":
+                    if key is None:
+                        obj.add_recipient()
+                    else:
+                        obj.add_recipient(key=key)
+                elif r.hdr == "none":
+                    obj.add_recipient(None, key)
                 else:
-                    h["alg"] = r.alg
-                obj.add_recipient(dict(h) if h else None, self.keys.get(r.key))
+                    obj.add_recipient({}, key)
             for r, rc in zip(cfg.rcps, obj.recipients):
                 if r.preset is not None:
                     rc.ephemeral_key = self.preset_key(r.preset)
                 if r.sender is not None:
                     rc.sender_key = self.keys.get(r.sender)
-            out = jwe.encrypt_json(obj, None, registry=self.reg)
+            out = jwe.encrypt_json(obj, self.keys.get(cfg.rcps[0].key) if via_json else None, registry=self.reg)
             return ("ok", out)
         except BaseException as e:  # noqa
             if isinstance(e, (KeyboardInterrupt, SystemExit)):
@@ -339,7 +473,7 @@ class Runner:
         """-> (iv_obs, [recipient obs dict], raw values dict) ; raises on undecryptable tokens"""
         from joserfc import jwe
         vals = {"iv": None, "cek": [], "gcmiv": [], "p2s": [], "epk": [], "p2c": []}
-        if cfg.ser == "compact":
+        if cfg.is_compact:
             parts = tok.split(".")
             protected = json.loads(b64d(parts[0]))
             iv = b64d(parts[2])
@@ -388,7 +522,7 @@ class Runner:
             # recover the CEK this recipient gets
             key = self.keys.get(r.key)
             self.icp.captured.clear()
-            if cfg.ser == "compact":
+            if cfg.is_compact:
                 jwe.decrypt_compact(tok, key, registry=self.reg, sender_key=self.keys.get(r.sender))
             else:
                 single = {k: v for k, v in tok.items() if k not in ("recipients", "header", "encrypted_key")}
@@ -532,8 +666,25 @@ def _run(ctx, ok, log, icp, reg, ALGS, ENCS, unknown_enc):
             if r.preset:
                 runner.preset_key(r.preset)
 
+    watch = StateWatch()
+    state = [watch.snap()]
+    ctx.coverage["state_leak_targets"] = len(watch.targets)
+
     def one(cfg, reps, tag):
-        """run cfg `reps` times; emit one Coq case; apply the direct oracle"""
+        r = one_(cfg, reps, tag)
+        # state leak oracle: no default argument, class attribute, module level container or shared
+        # algorithm / registry object may have changed by encrypting
+        now = watch.snap()
+        ch = watch.changed(state[0], now)
+        if ch:
+            ctx.violation({"kind": "state-leak"},
+                          "encrypting %s changed shared state: %s" % (cfg.label(), ", ".join(ch[:6])),
+                          {"config": cfg.js(), "changed": ch[:20]})
+        state[0] = now
+        return r
+
+    def one_(cfg, reps, tag):
+        """run cfg `reps` times (>= 3 for every configuration); emit one Coq case; apply the direct oracle"""
         prepare_keys(cfg)
         w_first = len(rec.log)
         first = None
@@ -641,6 +792,20 @@ def _run(ctx, ok, log, icp, reg, ALGS, ENCS, unknown_enc):
     # ---------------- histories with the real generator -----------------
     N = ctx.scale(200, int(os.environ.get("VERIF_C18_N", "10000")))      # VERIF_C18_N: smoke-test override of the thorough size
     sers = ["compact", "flat", "general"]
+    HDRS = ["omit", "none", "empty", "dict"]
+    JSON_SHAPES = [("protected", "omit"), ("recipient", "dict"), ("unprotected", "omit"), ("protected", "none"),
+                   ("protected", "empty"), ("unprotected", "dict"), ("recipient", "dict"), ("protected", "omit")]
+    ALL_SHAPES = [(a, h) for a in ("protected", "unprotected") for h in HDRS] + [("recipient", "dict")]
+
+    def rand_shape():
+        a, h = rng.choice(ALL_SHAPES)
+        return {"alg_at": a, "hdr": h}
+
+    def rand_ser():
+        return rng.choice(["compact", "compact_obj", "flat", "general"])
+
+    def rand_via():
+        return rng.choice(["recipient", "encrypt_json"])
     hist = []
     for i, alg in enumerate(ALGS):
         for j, enc in enumerate(ENCS):
@@ -649,8 +814,14 @@ def _run(ctx, ok, log, icp, reg, ALGS, ENCS, unknown_enc):
             key = key_for_alg(alg, enc, j + i)
             if alg.startswith("ECDH-1PU"):
                 sender = (key[0], key[1], "sender")
-            hist.append(Config(enc, ser, [Rcp(alg, key, sender=sender, alg_in_protected=(ser != "compact" and (i + j) % 2 == 0))],
-                               aad=(b"aad" if ser != "compact" and j % 2 else None), zip_=(j % 4 == 3)))
+            alg_at, hdr = JSON_SHAPES[j % len(JSON_SHAPES)]
+            if ser == "compact":
+                alg_at = "protected"
+                if j % 2 == 0:
+                    ser, hdr = "compact_obj", HDRS[(j // 2) % 4]
+            hist.append(Config(enc, ser, [Rcp(alg, key, sender=sender, alg_at=alg_at, hdr=hdr)],
+                               aad=(b"aad" if ser in ("flat", "general") and j % 2 else None), zip_=(j % 4 == 3),
+                               keys_via=("encrypt_json" if (i + j) % 4 == 1 else "recipient")))
     # multi-recipient general JSON
     multi = [
         ("A128CBC-HS256", [("RSA-OAEP", ("RSA", 2048)), ("A128KW", ("oct", 128)), ("ECDH-ES+A128KW", ("EC", "P-256"))]),
@@ -697,18 +868,18 @@ def _run(ctx, ok, log, icp, reg, ALGS, ENCS, unknown_enc):
                 p2s = bytes(rng.randrange(256) for _ in range(p2s_len)) if p2s_len else (b"" if p2s_len == 0 else None)
                 if p2s == b"":
                     p2s = None
-                ser = rng.choice(sers)
-                singles.append(Config(enc, ser, [Rcp(alg, ("oct", rng.choice([64, 128, 256])), p2s=p2s, p2c=p2c,
-                                                     alg_in_protected=rng.random() < 0.5)]))
+                singles.append(Config(enc, rand_ser(), [Rcp(alg, ("oct", rng.choice([64, 128, 256])), p2s=p2s, p2c=p2c,
+                                                            **rand_shape())], keys_via=rand_via()))
     for alg in [a for a in ALGS if a.startswith("ECDH")]:
         for kspec in ecs:
             enc = rng.choice(ENCS[:3]) if "1PU+" in alg else rng.choice(ENCS)
             sender = (kspec[0], kspec[1], "sender") if "1PU" in alg else None
-            singles.append(Config(enc, rng.choice(sers), [Rcp(alg, kspec, sender=sender)]))
+            singles.append(Config(enc, rand_ser(), [Rcp(alg, kspec, sender=sender, **rand_shape())], keys_via=rand_via()))
             # pre-set ephemeral key: same curve, and a different curve (exchange fails after the draws)
             other = ecs[(ecs.index(kspec) + 1) % len(ecs)]
             for pre in (kspec, other):
-                singles.append(Config(enc, rng.choice(["flat", "general"]), [Rcp(alg, kspec, preset=pre, sender=sender)]))
+                singles.append(Config(enc, rng.choice(["flat", "general"]), [Rcp(alg, kspec, preset=pre, sender=sender, **rand_shape())],
+                                      keys_via=rand_via()))
         # missing / mismatching sender key
         if "1PU" in alg:
             singles.append(Config("A128CBC-HS256", "general", [Rcp(alg, ("EC", "P-256"))]))
@@ -719,7 +890,34 @@ def _run(ctx, ok, log, icp, reg, ALGS, ENCS, unknown_enc):
         for kspec in allkeys:
             enc = rng.choice(ENCS)
             sender = ("EC", "P-256", "sender") if "1PU" in alg else None
-            singles.append(Config(enc, rng.choice(sers), [Rcp(alg, kspec, sender=sender)]))
+            singles.append(Config(enc, rand_ser(), [Rcp(alg, kspec, sender=sender, **rand_shape())], keys_via=rand_via()))
+    # (b') call shapes: every algorithm x every way of building the message object the public API allows
+    #      (header argument omitted / None / {} / fresh dict; alg in the protected, shared unprotected or
+    #      recipient header; key given to add_recipient or to encrypt_json; CompactEncryption + attach_recipient)
+    for ai, alg in enumerate(ALGS):
+        for si, (alg_at, hdr) in enumerate(ALL_SHAPES):
+            for ser in ("flat", "general"):
+                enc = ENCS[(ai + si) % 3] if "1PU+" in alg else ENCS[(ai + si) % len(ENCS)]
+                kspec = key_for_alg(alg, enc, ai + si)
+                sender = (kspec[0], kspec[1], "sender") if "1PU" in alg else None
+                singles.append(Config(enc, ser, [Rcp(alg, kspec, sender=sender, alg_at=alg_at, hdr=hdr)],
+                                      keys_via=("encrypt_json" if (ai + si + (ser == "flat")) % 2 else "recipient")))
+        for hi, hdr in enumerate(HDRS):
+            enc = ENCS[(ai + hi) % 3] if "1PU+" in alg else ENCS[(ai + hi) % len(ENCS)]
+            kspec = key_for_alg(alg, enc, ai + hi)
+            sender = (kspec[0], kspec[1], "sender") if "1PU" in alg else None
+            singles.append(Config(enc, "compact_obj", [Rcp(alg, kspec, sender=sender, alg_at="protected", hdr=hdr)]))
+    # (b'') several recipients sharing one alg from the protected / unprotected header, recipient headers not passed
+    for alg in ("A128GCMKW", "PBES2-HS256+A128KW", "ECDH-ES+A128KW", "A256KW", "RSA-OAEP", "ECDH-1PU+A128KW"):
+        for alg_at in ("protected", "unprotected"):
+            for hdr in ("omit", "none", "empty"):
+                enc = rng.choice(ENCS[:3])
+                kspec = key_for_alg(alg, enc, rng.randrange(6))
+                sender = (kspec[0], kspec[1], "sender") if "1PU" in alg else None
+                n = rng.choice([2, 3])
+                hdrs = [hdr] * n if rng.random() < 0.6 else [rng.choice(["omit", "none", "empty", "dict"]) for _ in range(n)]
+                singles.append(Config(enc, "general", [Rcp(alg, kspec, sender=sender, alg_at=alg_at, hdr=h) for h in hdrs],
+                                      keys_via=rand_via()))
     # (c) unknown algorithm, no recipient
     singles.append(Config("A128GCM", "compact", [Rcp("A512KW", ("oct", 128))]))
     for enc in ENCS:
@@ -744,7 +942,7 @@ def _run(ctx, ok, log, icp, reg, ALGS, ENCS, unknown_enc):
             rcps.append(Rcp(alg, kspec, p2s=p2s, preset=preset, sender=sender))
         singles.append(Config(enc, "general", rcps, aad=(b"x" if rng.random() < 0.3 else None)))
     for cfg in singles:
-        r = one(cfg, rng.choice([1, 1, 2, 3]), "single")
+        r = one(cfg, rng.choice([3, 3, 3, 4]), "single")
         if r is None:
             continue
         dist["single_cases"] += 1
@@ -833,6 +1031,12 @@ def _run(ctx, ok, log, icp, reg, ALGS, ENCS, unknown_enc):
         meta.append({"keygen": kind, "arg": arg, "private": private, "reps": reps,
                      "impl": {"err": err, "draws": shape, "emitted": em}})
         dist["keygen_cases"] += 1
+        now = watch.snap()
+        ch = watch.changed(state[0], now)
+        if ch:
+            ctx.violation({"kind": "state-leak"}, "generating a %s key (%r) changed shared state: %s" % (kind, arg, ", ".join(ch[:6])),
+                          {"keygen": kind, "arg": arg, "private": private, "changed": ch[:20]})
+        state[0] = now
 
     M = ctx.scale(200, int(os.environ.get("VERIF_C18_N", "10000")))
     for bits in (128, 192, 256, 384, 512, 64, 8, 1024):
@@ -944,6 +1148,8 @@ def replay(path):
         keys = Keys(); runner = Runner(icp, keys, reg)
         still = 0
         recorded = rp.get("impl")
+        watch = StateWatch()
+        snap0 = watch.snap()
         if cfgj:
             cfg = Config.from_js(cfgj)
             for rc in cfg.rcps:
@@ -996,6 +1202,9 @@ def replay(path):
                     print("  behaves as recorded (disagrees with the model)"); still = 1
         else:
             still = 1
+        ch = watch.changed(snap0, watch.snap())
+        if ch:
+            print("  SHARED STATE CHANGED:", ch[:10]); still = 1
     finally:
         icp.uninstall()
     print("still failing" if still else "not reproduced on this tree")
